@@ -66,9 +66,18 @@ fn needs_quote(id: &str) -> bool {
     !is_valid_as_id(id) || is_keyword(id)
 }
 
+/// Escape a text for the Candid text format. Same as `escape_debug`, except for NUL, whose
+/// `\0` form is not part of the Candid grammar (and would fuse with a following hex digit).
+pub(crate) fn escape_text(s: &str) -> String {
+    s.split('\0')
+        .map(|part| part.escape_debug().to_string())
+        .collect::<Vec<_>>()
+        .join("\\u{0}")
+}
+
 fn ident_string(id: &str) -> String {
     if needs_quote(id) {
-        format!("\"{}\"", id.escape_debug())
+        format!("\"{}\"", escape_text(id))
     } else {
         id.to_string()
     }
@@ -384,7 +393,7 @@ pub fn compile_with_docs(env: &TypeEnv, actor: &Option<Type>, docs: &DocComments
 #[cfg_attr(docsrs, doc(cfg(feature = "value")))]
 #[cfg(feature = "value")]
 pub mod value {
-    use super::{ident_string, pp_label_raw};
+    use super::{escape_text, ident_string, pp_label_raw};
     use crate::pretty::utils::*;
     use crate::types::value::{IDLArgs, IDLField, IDLValue};
     use crate::types::Label;
@@ -495,7 +504,7 @@ pub mod value {
                 Int64(n) => write!(f, "{} : int64", pp_num_str(&n.to_string())),
                 Float32(_) => write!(f, "{} : float32", number_to_string(self)),
                 Float64(_) => write!(f, "{} : float64", number_to_string(self)),
-                Text(s) => write!(f, "{s:?}"),
+                Text(s) => write!(f, "\"{}\"", escape_text(s)),
                 None => write!(f, "null"),
                 Reserved => write!(f, "null : reserved"),
                 Principal(id) => write!(f, "principal \"{id}\""),
@@ -614,7 +623,7 @@ pub mod value {
             return RcDoc::as_string(format!("{v:?}"));
         }
         match v {
-            Text(ref s) => RcDoc::as_string(format!("\"{}\"", s.escape_debug())),
+            Text(ref s) => RcDoc::as_string(format!("\"{}\"", escape_text(s))),
             Opt(v) if has_type_annotation(v) => {
                 kwd("opt").append(enclose("(", pp_value(depth - 1, v), ")"))
             }
